@@ -448,7 +448,12 @@ pub(crate) fn run_scheduling_solver(
             let v_id = ResourceVariantId::new(0);
             let n_nodes = rqv.get(v_id).n_nodes() as usize;
             let mut ws: Vec<ThinVec<WorkerId>> = Vec::new();
-            for worker in &workers {
+            // The workers of one multi-node task have to come from a single group. The solver
+            // selects a multiple of n_nodes workers in every group, so the selected workers are
+            // split into tasks group by group.
+            let mut workers_by_group = workers.clone();
+            workers_by_group.sort_by(|a, b| a.configuration.group.cmp(&b.configuration.group));
+            for worker in &workers_by_group {
                 if let Some(v) = placements.get(&(worker.id, resource_rq_id, v_id)) {
                     let count = solution.get_value(*v).round() as u32;
                     if count > 0 {
